@@ -133,6 +133,8 @@ func main() {
 		cmdVerify(os.Args[2:])
 	case "check":
 		cmdCheck(os.Args[2:])
+	case "names":
+		cmdNames(os.Args[2:])
 	default:
 		fmt.Fprintln(os.Stderr, "unknown command", os.Args[1])
 		os.Exit(2)
@@ -167,6 +169,8 @@ func runVerification(o RunOpts) (*RunResult, error) {
 	rr := &RunResult{Loaded: ld}
 	t0 := time.Now()
 	db := ld.DB
+	loadBaselineNames(o.Verif)
+	computeRenames(ld)
 	for _, name := range db.LemmaOrder {
 		lm := db.Lemmas[name]
 		if lm.Axiom || !hasProp(lm.Props, o.Props) {
